@@ -103,13 +103,15 @@ AUDIT = None
 # run-time configuration changes) the application state / failures that EACH instance reports at quiescence are
 # compared with the definition applied to the process states that the SAME instance reports at that instant
 L3_KNOBS = {'n_min': 2, 'n_max': 4,
-            'apps': {'n_apps': (1, 3), 'n_progs': (1, 4), 'seq_max': 2, 'startsecs': (0, 3), 'max_numprocs': 3,
+            'apps': {'n_apps': (1, 3), 'n_progs': (1, 4), 'seq_max': 2, 'startsecs': (0, 3), 'max_numprocs': 3, 'stopwaitsecs': (4, 12),
                      'per_instance_diff': 0.1, 'managed_p': 0.8, 'autorestart': ('false',)},
-            'behaviours': ['normal'] * 5 + ['slow_stop', 'crash_early', 'exit_unexpected', 'exit_expected', 'no_file'],
+            'behaviours': ['normal'] * 4 + ['slow_stop', 'slow_stop', 'stubborn', 'stubborn', 'crash_early', 'exit_unexpected',
+                           'exit_expected', 'no_file'],
             'actions': ['start_application', 'stop_application', 'restart_application', 'start_process', 'stop_process',
-                        'kill_process', 'kill_process', 'crash', 'restart', 'burst', 'update_numprocs',
+                        'stop_application', 'stop_process', 'kill_process', 'crash', 'crash', 'crash', 'restart', 'burst',
+                        'update_numprocs',
                         'update_numprocs', 'remove_group', 'add_group', 'disable'],
-            'n_actions': [2, 3, 4, 6, 8], 'early_p': 0.2, 'fence': 'false'}
+            'n_actions': [2, 3, 4, 6, 8], 'early_p': 0.2, 'fence': 'false', 'gaps': [0.0, 0.05, 0.5, 2.0, 5.0, 12.0]}
 L3_COUNT = {'quick': 240, 'thorough': 4000}
 
 
